@@ -20,6 +20,11 @@ pub struct Uint<const BITS: usize, const LIMBS: usize> { pub
 
 //@ include lib/uint_spec.rs
 //@ include lib/uint_ops.rs
+//@ include lib/lvi.rs
+
+//@ import mul_redc mul_redc
+//@ import mul_redc square_redc
+pub mod algorithms { pub use super::mul_redc; pub use super::square_redc; }
 
 pub proof fn lemma_lv_first(s: Seq<u64>, n: nat)
     requires 1 <= n <= s.len()
@@ -70,6 +75,7 @@ pub proof fn lemma_pow_mod_base(x: int, y: int, e: nat, m: int)
 
 impl<const BITS: usize, const LIMBS: usize> Uint<BITS, LIMBS> {
 //@ import core ZERO
+//@ import core from_limbs
 //@ import basics ONE
 //@ import basics is_zero
 //@ import add overflowing_add
@@ -227,6 +233,66 @@ impl<const BITS: usize, const LIMBS: usize> Uint<BITS, LIMBS> {
             assert(result.val() as int * 1 == result.val()) by(nonlinear_arith);
             lemma_small_mod(result.val(), m as nat);
         }/*-*/
+        result
+    }
+//@ end
+    // value of the limb array in the two vocabularies
+    pub proof fn lemma_val_is_lvi(self)
+        ensures self.val() as int == lvi(self.limbs@, LIMBS as int), pow2(64 * LIMBS as nat) as int == bp(LIMBS as int)
+    {
+        lemma_lvi_is_lvr(self.limbs@, LIMBS as int);
+        lemma_lvr_is_lv(self.limbs@, LIMBS as nat);
+        lemma_bp_is_pow2(LIMBS as nat);
+    }
+
+//@ extract src/modular.rs fn mul_redc
+    pub fn mul_redc(self, other: Self, modulus: Self, inv: u64) -> /*+*/(r:/*-*/ Self/*+*/)
+        requires self.wf(), other.wf(), modulus.wf(), BITS <= usize::MAX - 63,
+            BITS > 0 ==> (inv as int * modulus.limbs[0] as int) % B == B - 1,
+            BITS > 0 ==> self.val() < modulus.val() && other.val() < modulus.val(),
+        ensures r.wf(),
+            BITS == 0 ==> r.val() == 0,
+            BITS > 0 ==> r.val() < modulus.val()
+                && exists|mu: int| #[trigger] redc_rel(pow2(64 * LIMBS as nat) as int * r.val() as int, self.val() as int * other.val() as int, modulus.val() as int, mu),/*-*/
+    {
+        if BITS == 0 {
+            return Self::ZERO();
+        }
+        /*+*/proof { self.lemma_val_is_lvi(); other.lemma_val_is_lvi(); modulus.lemma_val_is_lvi(); }/*-*/
+        let result = algorithms::mul_redc(self.limbs, other.limbs, modulus.limbs, inv);
+        /*+*/proof {
+            let u = Uint::<BITS, LIMBS> { limbs: result };
+            u.lemma_val_is_lvi(); u.lemma_wf_iff_lt(); modulus.lemma_wf_lt();
+        }/*-*/
+        let result = Self::from_limbs(result);
+        /*+*/proof { result.lemma_val_is_lvi(); }/*-*/
+        vassert (result < modulus );
+        result
+    }
+//@ end
+
+//@ extract src/modular.rs fn square_redc
+    pub fn square_redc(self, modulus: Self, inv: u64) -> /*+*/(r:/*-*/ Self/*+*/)
+        requires self.wf(), modulus.wf(), BITS <= usize::MAX - 63,
+            BITS > 0 ==> (inv as int * modulus.limbs[0] as int) % B == B - 1,
+            BITS > 0 ==> self.val() < modulus.val(),
+        ensures r.wf(),
+            BITS == 0 ==> r.val() == 0,
+            BITS > 0 ==> r.val() < modulus.val()
+                && exists|mu: int| #[trigger] redc_rel(pow2(64 * LIMBS as nat) as int * r.val() as int, self.val() as int * self.val() as int, modulus.val() as int, mu),/*-*/
+    {
+        if BITS == 0 {
+            return Self::ZERO();
+        }
+        /*+*/proof { self.lemma_val_is_lvi(); modulus.lemma_val_is_lvi(); }/*-*/
+        let result = algorithms::square_redc(self.limbs, modulus.limbs, inv);
+        /*+*/proof {
+            let u = Uint::<BITS, LIMBS> { limbs: result };
+            u.lemma_val_is_lvi(); u.lemma_wf_iff_lt(); modulus.lemma_wf_lt();
+        }/*-*/
+        let result = Self::from_limbs(result);
+        /*+*/proof { result.lemma_val_is_lvi(); }/*-*/
+        vassert (result < modulus );
         result
     }
 //@ end
